@@ -79,7 +79,7 @@ let s_rout = function RPending -> "pending" | RTrue -> "true" | RFalse -> "false
 let s_bool v = if v then "1" else "0"
 let s_event = function
   | EvStartEnter _ -> "SE" | EvStartExit (_, o) -> "SX:" ^ s_hout o
-  | EvHandleEnter (_, o) -> "HE" ^ string_of_int (int_of_nat o)
+  | EvHandleEnter (_, o, _) -> "HE" ^ string_of_int (int_of_nat o)
   | EvHandleExit (_, o, out) -> "HX" ^ string_of_int (int_of_nat o) ^ ":" ^ s_hout out
   | EvTellResult (_, o) -> "TR" ^ string_of_int (int_of_nat o)
   | EvRunDone (_, r) -> "RD:" ^ s_rout r
@@ -195,7 +195,28 @@ let closure (starts : xstate list) : xstate list =
   done;
   List.rev !quiet
 
+(* ---------- exhaustive table of ActorResult accessors (C05) ---------- *)
+let result_table () =
+  let st = [HvHandle (nat_of_int 1); HvStart] in
+  let sst = function None -> "none" | Some st -> s_ustate st in
+  let ser = function None -> "none" | Some e -> string_of_n e in
+  List.iter (fun r ->
+      let shape = match r with
+        | Completed (_, k) -> "completed:k" ^ s_bool k
+        | Failed (a, _, ph, k) -> Printf.sprintf "failed:%s:%s:k%s" (match a with None -> "none" | Some _ -> "some") (s_phase ph) (s_bool k) in
+      let (ta, te) = to_tuple r in
+      Printf.printf "%s is_completed=%s is_failed=%s was_killed=%s stopped_normally=%s is_startup_failed=%s is_runtime_failed=%s is_cleanup_failed=%s is_stop_failed=%s has_actor=%s actor=%s error=%s into_actor=%s into_error=%s to_result=%s tuple=%s,%s\n"
+        shape (s_bool (is_completed r)) (s_bool (is_failed r)) (s_bool (was_killed r)) (s_bool (stopped_normally r))
+        (s_bool (is_startup_failed r)) (s_bool (is_runtime_failed r)) (s_bool (is_cleanup_failed r)) (s_bool (is_stop_failed r))
+        (s_bool (has_actor r)) (sst (r_actor r)) (ser (r_error r)) (sst (r_actor r)) (ser (r_error r))
+        (match to_result r with Inl st -> "ok:" ^ s_ustate st | Inr e -> "err:" ^ string_of_n e)
+        (sst ta) (ser te))
+    (all_shapes st (n_of_int 7));
+  List.iter (fun (n, e) -> Printf.printf "retryable %s %s\n" n (s_bool (is_retryable e)))
+    ["send", ESend; "recv", EReceive; "timeout", ETimeout]
+
 let () =
+  if Array.length Sys.argv > 1 && Sys.argv.(1) = "--result-table" then (result_table (); exit 0);
   let script = ref "" and observed = ref "" and proj = ref "full" and dump = ref false in
   Arg.parse [ "--script", Arg.Set_string script, "script file";
               "--observed", Arg.Set_string observed, "observed views";
